@@ -14,7 +14,7 @@ CONSTS = {  # name -> constants of MC_Source_<name>.cfg that the harness needs
 # which bounded configurations exercise which property (quick, thorough adds the rest)
 QUICK = {
     "C07": ["NtsV4", "NtsV5"],
-    "C08": ["PlainV4", "NtsV5"],
+    "C08": ["PlainV4", "PlainAuto", "NtsV5"],
     "C09": ["PlainV4", "PlainV5", "NtsV4"],
     "C10": ["PlainV4", "PlainV5"],
     "C11": ["PlainV4", "NtsV4"],
